@@ -5,7 +5,9 @@
     variants (per-worker partial sums, iteration-order dependent folds) must be REFUTED by TLC.
 (B) Gen_Determinism.tla enumerates configurations x environment plans.
 (C) harness c20 runs every configuration in every environment (rayon pools of 1..16 threads and the
-    global pool, repeated in-process, in fresh child processes = fresh hash seeds) and records digests
+    global pool, repeated in-process, in fresh child processes = fresh hash seeds, and -- builder family --
+    with the parameter object built through different histories: fresh / re-set after use / clone of a
+    used builder) and records digests
     of the exact bit patterns + the kmeans.par / kmeans.red hook events; Trace_Determinism.tla decides.
 """
 import json, os, re, glob
@@ -46,9 +48,16 @@ CATALOGUE = [  # (est, var, uses rayon, uses seed) -- must match Gen_Determinism
 SLOW = {"svr", "svc", "svm_multi", "glm", "ica", "diffmap"}
 
 
-def mk(kind, est, var, data, seed, k, plan, nproc, hook):
+HISTS = ["fresh", "reset", "clone", "refinal"]
+BUILDERS = [("b_countvec", 0), ("b_tfidf", 0), ("b_kmeans", 1), ("b_gmm", 1), ("b_svc", 0), ("b_svr", 0), ("b_tree", 0),
+            ("b_elasticnet", 0), ("b_logistic", 0), ("b_mlogistic", 0), ("b_glm", 0), ("b_pls", 0), ("b_ftrl", 1), ("b_gnb", 0),
+            ("b_dbscan", 0), ("b_ica", 1), ("b_randproj", 1), ("b_pca", 0), ("b_hier", 0), ("b_scaler", 0), ("b_whiten", 0)]
+
+
+def mk(kind, est, var, data, seed, k, plan, nproc, hook, hists=("fresh",)):
     return {"kind": kind, "inp": {"est": est, "var": var, "data": data, "seed": seed, "k": k, "minpts": 2, "tol4": 15000,
-                                  "depth": 5, "iters": 6, "runs": 2, "plan": plan, "nproc": nproc, "hook": hook}}
+                                  "depth": 5, "iters": 6, "runs": 2, "plan": plan, "nproc": nproc, "hook": hook,
+                                  "hists": list(hists)}}
 
 
 def random_cases(ctx, count):
@@ -56,6 +65,17 @@ def random_cases(ctx, count):
     r = ctx.rng
     out = []
     for _ in range(count):
+        if r.random() < 0.15:
+            # builder-history case: a random non-empty subset of the non-fresh histories next to the fresh builder
+            est, seeded = r.choice(BUILDERS)
+            hs = ["fresh"] + [h for h in HISTS[1:] if r.random() < 0.6] or ["fresh", "reset"]
+            if len(hs) == 1:
+                hs.append(r.choice(HISTS[1:]))
+            data = {"g": "blobs", "x": [], "y": [], "n": r.choice([30, 64, 100, 257]), "d": r.randint(1, 4), "c": r.randint(2, 5),
+                    "seed": r.randint(1, 10 ** 6)}
+            out.append(mk("builder", est, "", data, r.randint(1, 1000) if seeded else 7, 3, r.choice([[[1, 1], [3, 1]], [[2, 2]]]),
+                          2, False, hs))
+            continue
         est, var, par, seeded = r.choice(CATALOGUE)
         seed = r.randint(1, 1000) if seeded else 7
         if r.random() < 0.5 and est not in SLOW:
@@ -182,10 +202,10 @@ def attach_diag(ctx):
                     json.dump(rep, f, indent=1)
 
 
-def trace_constants(req_hook):
+def trace_constants(req_hook=True):
     c = dict(DUMMY)
-    c["RequireHook"] = "TRUE" if req_hook else "FALSE"
-    c["RequireVal"] = "TRUE" if (req_hook and val_hook_in_source()) else "FALSE"
+    c["RequireHook"] = "TRUE"
+    c["RequireVal"] = "TRUE"
     return c
 
 
@@ -201,24 +221,17 @@ def run(ctx):
     ctx.exhaustive = True
     if not ctx.quick:
         cases += random_cases(ctx, 6000)
-    if not val_hook_in_source():
-        # the hookbig family needs hook v2 (loops above 4096 rows are logged coarsely); with the first
-        # hook every row of a 20 000-row loop would be an event
-        dropped = [c for c in cases if c["kind"] == "hookbig"]
-        cases = [c for c in cases if c["kind"] != "hookbig"]
-        if dropped:
-            vlib.log("NOTE: %s has no value hook (docs/reports/C20-hook2.diff): %d hookbig cases skipped; sizes >= 8192 rows are "
-                     "covered by the run history of the big family only" % (vlib.REPO, len(dropped)))
+    if not (hook_in_source() and val_hook_in_source()):
+        raise vlib.ToolError("%s does not contain the kmeans.par / kmeans.red hooks (/repo ed41277, 98ba641): the schedule model "
+                             "cannot be bound to this tree" % vlib.REPO)
     vlib.number(cases)
     ctx.cases = len(cases)
     traces = execute(ctx, binp, cases)
-    req_hook = hook_in_source()
+    req_hook = True
     nhook = sum(len(ev.get("par", [])) for t in traces for ev in t["ev"])
-    if req_hook and nhook == 0:
-        raise vlib.ToolError("the tree contains the kmeans.par hook but no hook event was recorded (hook not compiled in?)")
-    if not req_hook:
-        vlib.log("NOTE: %s has no kmeans.par hook: the schedule model is not bound to the code in this run "
-                 "(run history layer only); see docs/reports/C20-hook.diff" % vlib.REPO)
+    nvals = sum(1 for t in traces for ev in t["ev"] for h in ev.get("par", []) if h[0] == 10)
+    if nhook == 0 or nvals == 0:
+        raise vlib.ToolError("no hook / value event was recorded although the tree contains the hooks (not compiled in?)")
     ctx.nontrivial = len({json.dumps([t["kind"], t["inp"]], sort_keys=True) for t in traces if nontrivial(t)})
     small = sorted((t for t in traces if t["kind"] == "tie" and nontrivial(t) and len(t["ev"][0]["obs"]) >= 6),
                    key=lambda t: len(json.dumps(t)))[:1]
@@ -228,11 +241,10 @@ def run(ctx):
     attach_diag(ctx)
     nruns = sum(len(t["ev"]) for t in traces)
     split = sum(1 for t in traces if t["kind"] == "hook" and nontrivial(t))
-    nvals = sum(1 for t in traces for ev in t["ev"] for h in ev.get("par", []) if h[0] == 10)
-    ctx.extra.update({"value_events": nvals, "value_hook_bound": bool(val_hook_in_source() and nvals > 0)})
+    ctx.extra.update({"value_events": nvals, "value_hook_bound": nvals > 0})
     ctx.extra.update({"runs_executed": nruns, "hook_events": nhook, "hook_bound": bool(req_hook and nhook > 0),
                       "hook_cases_with_loop_split_over_threads": split,
-                      "families": {k: sum(1 for t in traces if t["kind"] == k) for k in ("tie", "frac", "blob", "hook", "hookbig", "big")}})
+                      "families": {k: sum(1 for t in traces if t["kind"] == k) for k in ("tie", "frac", "blob", "builder", "hook", "hookbig", "big")}})
     ctx.rule = ("cases = configurations (estimator variant x data x seed) enumerated by TLC (Gen_Determinism: all labelled lattice "
                 "data sets up to the tier's size x tie-sensitive estimators; the whole catalogue x generated data; k-means family with "
                 "hook on small data (row by row) and on >= 9000 rows (loops coarse, reductions + their values) / on large data up to 20000-40000 rows) [+ seeded random configurations in the thorough tier], each run under its plan of environments "
@@ -254,6 +266,6 @@ def replay(ctx, case):
     binp = vlib.cargo_build("c20")
     traces = vlib.run_harness(ctx, binp, [case], env={"C20_CHUNKS": "1"})
     ctx.cases = 1
-    vlib.validate_with_findings(ctx, "Trace_Determinism", traces, constants=trace_constants(hook_in_source()))
+    vlib.validate_with_findings(ctx, "Trace_Determinism", traces, constants=trace_constants())
     attach_diag(ctx)
     return vlib.finish(ctx)
